@@ -24,7 +24,81 @@ func runNI(c *Ctx) (obls []Obl) {
 	niFlow(c, a)
 	niWidth(c, a)
 	niWriters(c, a)
+	niHeaders(c, a)
 	return
+}
+
+// niHeaders: what a header line is made of.
+func niHeaders(c *Ctx, a *flAgg) {
+	for _, h := range []struct{ name, first string }{{"BucketHeader", "len("}, {"GoroutineHeader", ".ID"}} {
+		fn := c.MustFunc(a.obls, "NI-header", "internal", "Palette", h.name)
+		if fn == nil {
+			continue
+		}
+		exprHome = fn.Pkg.Pkg
+		x := &SPE{Fn: fn, MaxVisits: 2}
+		x.Explore()
+		subj := fn.Params[1].Name()
+		okAll, n := true, 0
+		why := ""
+		for _, p := range x.Paths {
+			if p.Term != "return" || len(p.Results) != 1 {
+				continue
+			}
+			n++
+			r := p.Results[0]
+			if !r.calleeIs("fmt", "Sprintf") || r.Args[2].Op != OpSlice {
+				okAll, why = false, "the header is not built by the documented format"
+				continue
+			}
+			format, _ := constStr(r.Args[1])
+			arr := r.Args[2].Args[0].String()
+			get := func(i int) string {
+				if v := p.Cells[fmt.Sprintf("%s[%d]", arr, i)]; v != nil {
+					return v.String()
+				}
+				return ""
+			}
+			if format != "%s%d: %s%s%s\n" {
+				okAll, why = false, "unexpected header format "+format
+				continue
+			}
+			if !strings.Contains(get(1), h.first) || !strings.HasSuffix(get(2), ".State") {
+				okAll, why = false, "the header does not start with the member count/goroutine id and the state"
+			}
+			extra := get(3)
+			// sleep
+			sleepEmpty, haveSleep := false, false
+			locked, haveLocked := false, false
+			createdEmpty, haveCreated := false, false
+			for _, lt := range p.Lits {
+				s := lt.Atom.String()
+				switch {
+				case strings.Contains(s, "SleepString(") && strings.HasSuffix(s, `== "")`):
+					sleepEmpty, haveSleep = lt.Pol, true
+				case strings.HasSuffix(s, ".Locked"):
+					locked, haveLocked = lt.Pol, true
+				case strings.Contains(s, "createdByString(") && strings.HasSuffix(s, `== "")`):
+					createdEmpty, haveCreated = lt.Pol, true
+				case strings.Contains(s, "RaceAddr") || strings.Contains(s, "RaceWrite"):
+				default:
+					okAll, why = false, "the header depends on an unexpected condition: "+s
+				}
+			}
+			if !haveSleep || !haveLocked || !haveCreated {
+				okAll, why = false, fmt.Sprintf("the header does not decide on SleepString (%v), Locked (%v) and createdByString (%v) of %s", haveSleep, haveLocked, haveCreated, subj)
+				continue
+			}
+			if (strings.Contains(extra, "SleepString(") != !sleepEmpty) || (strings.Contains(extra, "[locked]") != locked) || (strings.Contains(extra, "createdByString(") != !createdEmpty) {
+				okAll, why = false, "sleep range, lock marker or creator are not shown exactly when present"
+			}
+		}
+		if okAll && n > 0 {
+			a.ok("NI-header", h.name, "the header is count/id, state, then the sleep range iff SleepString is non-empty, [locked] iff Locked, the creator iff known", fn.Pos())
+		} else {
+			a.bad("NI-header", h.name, "the header is not made of count/id, state, sleep range (iff non-empty), lock marker (iff locked) and creator (iff known): "+why, fn.Pos())
+		}
+	}
 }
 
 // niFlow: taint analysis of palette strings inside package internal.
@@ -36,6 +110,9 @@ func niFlow(c *Ctx, a *flAgg) {
 		ld, ok := v.(*ssa.UnOp)
 		if !ok || ld.Op != token.MUL {
 			return false
+		}
+		if nt, ok := ld.Type().(*types.Named); ok && nt.Obj().Name() == "Palette" {
+			return true // the whole palette
 		}
 		fa, ok := ld.X.(*ssa.FieldAddr)
 		if !ok {
@@ -332,7 +409,11 @@ func niWidth(c *Ctx, a *flAgg) {
 	x.Explore()
 	okCols := false
 	var pkgCol, srcCol string
+	allPaths := true
 	for _, p := range x.Paths {
+		if p.Term == "return" && len(p.Results) == 1 && !p.Results[0].calleeIs("fmt", "Sprintf") {
+			allPaths = false
+		}
 		for _, ev := range p.Events {
 			if ev.Kind != EvCall || !ev.Val.calleeIs("fmt", "Sprintf") {
 				continue
@@ -365,7 +446,10 @@ func niWidth(c *Ctx, a *flAgg) {
 			}
 		}
 	}
-	if okCols {
+	if okCols && !allPaths {
+		a.bad("NI-width", "callLine/columns", "callLine has a path that does not build the line with the padded format (a special case that pads differently, e.g. by byte length, breaks alignment and colour independence)", cl.Pos())
+		okCols = true
+	} else if okCols {
 		a.ok("NI-width", "callLine/columns", "the two padded columns are the directory name (width pkgLen) and pf.formatCall(line) (width srcLen), left-aligned", cl.Pos())
 	} else {
 		a.bad("NI-width", "callLine/columns", "callLine does not pad Func.DirName to pkgLen and pf.formatCall(line) to srcLen with %-*s", cl.Pos())
